@@ -231,17 +231,24 @@ func generate(o *common.Opts, obs *common.Obs) []Doc {
 	thorough := o.Tier == "thorough"
 	shard := int(o.Seed % 1000)
 
-	// directed part (first shard only in the quick tier; every shard would repeat it)
-	if shard == 0 {
-		for _, bd := range fixedByteDocs() {
-			docs = append(docs, Doc{Kind: "bytes", Label: bd.label, Files: map[string][]byte{"Taskfile.yml": bd.b}, Requested: []string{"t", "nonexist"}})
+	// directed part, spread over the first eight shards (every check runs at least that many)
+	if shard < 8 {
+		for i, bd := range fixedByteDocs() {
+			if i%8 == shard {
+				docs = append(docs, Doc{Kind: "bytes", Label: bd.label, Files: map[string][]byte{"Taskfile.yml": bd.b}, Requested: []string{"t", "nonexist"}})
+			}
 		}
-		// unit probes: snippet arithmetic over a grid, include locations, task names
+	}
+	if shard == 1 {
+		// unit probes: snippet arithmetic over a grid
 		for _, raw := range []string{"", "a", "a\n", "a\nb\nc\nd\ne\nf\n", "a\rb\rc\rd\re\r", "k: v\r\nk2: v\r\n", "a" + nel + "b" + ls + "c" + ps + "d", "x: [1,\n 2]\n\n\n"} {
 			for line := -1; line <= 9; line++ {
 				docs = append(docs, Doc{Kind: "snip", Label: "snip-grid", Raw: []byte(raw), Line: line})
 			}
 		}
+	}
+	if shard == 2 {
+		// unit probes: include locations, task names
 		for _, l := range append(append([]string{}, locPool...), "git", "gitx://a.git", "https://a.example/x.git//", "https://a.example/x.git//a//b", "ssh://h/x.git?ref=v1", "https://h.example/.git", "a.git", "./a.git", "HTTP://x.example/a.git") {
 			docs = append(docs, Doc{Kind: "loc", Label: "loc", Loc: l})
 		}
@@ -275,12 +282,13 @@ func generate(o *common.Opts, obs *common.Obs) []Doc {
 	if thorough {
 		nShards = 1 + (len(muts)-1)/200
 	}
+	half := int(o.Seed/1000) % 2 // the quick tier takes every other mutation; which half alternates with VERIF_SEED
 	for i, m := range muts {
 		if i%nShards != shard%nShards {
 			continue
 		}
-		if !thorough && shard >= nShards {
-			break
+		if shard >= nShards || (!thorough && (i/nShards)%2 != half) {
+			continue
 		}
 		root := max.ReplaceAt(m.p, func(old *Y) *Y { return mutate(m.k, old) })
 		docs = append(docs, renderTreeDoc(fmt.Sprintf("mutation:%d", m.k), maxTrees(root), []string{"nonexist"}))
@@ -313,7 +321,7 @@ func generate(o *common.Opts, obs *common.Obs) []Doc {
 
 // runCLI runs the real binary on the document.
 func runCLI(bin string, d *Doc, args []string) CLIObs {
-	dir, err := os.MkdirTemp("", "vh-cli")
+	dir, err := os.MkdirTemp(tmpBase, "vh-cli")
 	if err != nil {
 		return CLIObs{Args: args, Exit: -1, Out: err.Error()}
 	}
@@ -385,6 +393,10 @@ func Main(args []string) {
 		fmt.Sscanf(v, "%d", &cliEvery)
 	}
 
+	if base, err := os.MkdirTemp("", "vh-decode"); err == nil {
+		tmpBase = base
+		defer os.RemoveAll(base)
+	}
 	p := &pool{}
 	defer p.close()
 	var trees, snips, locs, wilds, mons []string
@@ -457,7 +469,11 @@ func Main(args []string) {
 			if t := d.Trees["Taskfile.yml"].Get("tasks"); t != nil && t.K == KMap && len(t.M) > 0 && t.M[0].K.K == KScalar {
 				name = t.M[0].K.V
 			}
-			for _, a := range [][]string{{"--list-all"}, {"--dry", name, "CLI_X=1"}, {"--dry", "nonexist"}} {
+			variants := [][]string{{"--list-all"}, {"--dry", name, "CLI_X=1"}, {"--dry", "nonexist"}}
+			if res.Class == "err" && res.Phase == "setup" {
+				variants = variants[1:2] // Setup fails the same way whatever is asked
+			}
+			for _, a := range variants {
 				if len(a) > 1 && a[1] == "" {
 					continue
 				}
